@@ -1,0 +1,112 @@
+//go:build verif
+
+package main
+
+// Verification driver (build tag "verif" only): when VERIF_DRIVER is set, serve a line
+// protocol on stdin/stdout that applies flag.Value.Set of the command's flag types to
+// given strings and reports what was stored, then exit before main parses flags.
+
+import (
+	"bufio"
+	"encoding/json"
+	"net/http"
+	"os"
+	"time"
+
+	"github.com/tsenart/vegeta/v12/internal/resolver"
+	vegeta "github.com/tsenart/vegeta/v12/lib"
+)
+
+type verifReq struct {
+	Op     string   `json:"op"`
+	Values []string `json:"values"`
+}
+
+type verifResp struct {
+	Errs      []string            `json:"errs"`
+	Freq      int                 `json:"freq"`
+	Per       int64               `json:"per"`
+	N         int64               `json:"n"`
+	String    string              `json:"string"`
+	Map       map[string][]string `json:"map"`
+	List      []string            `json:"list"`
+	Unlimited bool                `json:"unlimited"`
+}
+
+func init() {
+	if os.Getenv("VERIF_DRIVER") == "" {
+		return
+	}
+	in := bufio.NewScanner(os.Stdin)
+	in.Buffer(make([]byte, 1<<20), 1<<26)
+	out := bufio.NewWriter(os.Stdout)
+	enc := json.NewEncoder(out)
+	for in.Scan() {
+		var req verifReq
+		var resp verifResp
+		if err := json.Unmarshal(in.Bytes(), &req); err != nil {
+			resp.Errs = []string{"bad request: " + err.Error()}
+			enc.Encode(&resp)
+			out.Flush()
+			continue
+		}
+		errstr := func(err error) string {
+			if err == nil {
+				return ""
+			}
+			return err.Error()
+		}
+		switch req.Op {
+		case "rate":
+			opts := attackOpts{rate: vegeta.Rate{Freq: 50, Per: time.Second}, maxWorkers: vegeta.DefaultMaxWorkers}
+			f := rateFlag{&opts.rate}
+			for _, v := range req.Values {
+				resp.Errs = append(resp.Errs, errstr(f.Set(v)))
+			}
+			resp.Freq, resp.Per, resp.String = opts.rate.Freq, int64(opts.rate.Per), f.String()
+			// the guard of attack(): an unlimited rate demands -max-workers
+			resp.Unlimited = opts.maxWorkers == vegeta.DefaultMaxWorkers && opts.rate.Freq == 0
+		case "headers":
+			h := headers{http.Header{}}
+			for _, v := range req.Values {
+				resp.Errs = append(resp.Errs, errstr(h.Set(v)))
+			}
+			resp.Map = h.Header
+		case "maxbody":
+			n := vegeta.DefaultMaxBody
+			f := maxBodyFlag{&n}
+			for _, v := range req.Values {
+				resp.Errs = append(resp.Errs, errstr(f.Set(v)))
+			}
+			resp.N, resp.String = n, f.String()
+		case "dnsttl":
+			var d time.Duration
+			f := dnsTTLFlag{&d}
+			for _, v := range req.Values {
+				resp.Errs = append(resp.Errs, errstr(f.Set(v)))
+			}
+			resp.N, resp.String = int64(d), f.String()
+		case "connectto":
+			var m map[string][]string
+			f := connectToFlag{&m}
+			for _, v := range req.Values {
+				resp.Errs = append(resp.Errs, errstr(f.Set(v)))
+			}
+			resp.Map, resp.String = m, f.String()
+		case "resolvers":
+			var l csl
+			for _, v := range req.Values {
+				resp.Errs = append(resp.Errs, errstr(l.Set(v)))
+			}
+			norm, err := resolver.VerifNormalizeAddrs(l)
+			resp.List = norm
+			resp.Errs = append(resp.Errs, errstr(err))
+			resp.String = l.String()
+		default:
+			resp.Errs = []string{"unknown op"}
+		}
+		enc.Encode(&resp)
+		out.Flush()
+	}
+	os.Exit(0)
+}
